@@ -63,10 +63,16 @@ type Stats struct {
 // free); nil means every non-default answer costs 1. maxExec>0 caps the number
 // of executions (Capped is then set).
 func Run(bound int, maxExec int64, exec func(c *Chooser), cost func(c *Chooser, i int, alt int) int) Stats {
+	return RunUntil(bound, maxExec, exec, cost, nil)
+}
+
+// RunUntil is Run that also stops (Capped) as soon as stop() says so — e.g. once a violation has been recorded
+// and further executions of the same scenario would only repeat it.
+func RunUntil(bound int, maxExec int64, exec func(c *Chooser), cost func(c *Chooser, i int, alt int) int, stop func() bool) Stats {
 	st := Stats{Bound: bound}
 	var rec func(prefix []int, used int)
 	rec = func(prefix []int, used int) {
-		if maxExec > 0 && st.Executions >= maxExec {
+		if (maxExec > 0 && st.Executions >= maxExec) || (stop != nil && stop()) {
 			st.Capped = true
 			return
 		}
